@@ -509,7 +509,32 @@ func init() {
 			if strings.HasPrefix(reader, "ogg") && r.Chance(1, 2) {
 				d, mut = c37OggStructured(r), "valid-crc-mutated-payload"
 			}
-			if (reader == "opushead" || reader == "opustags") && r.Chance(1, 4) {
+			if reader == "opustags" && r.Chance(1, 3) {
+				// well-formed payload with ONE length field (vendor length, comment count or a
+				// comment length) replaced by a hostile value, incl. values near 2^32 that wrap
+				// 32-bit sums
+				vendor := "pion"
+				nc := r.Range(1, 3)
+				hostile := Pick(r, []uint32{0xffffffff, 0xfffffff0, 0xffffffe8, 0xfffffffc, 0x80000000, 0x7fffffff,
+					0xffffffff - uint32(r.Intn(64)), uint32(r.Intn(64)), 0x10000})
+				which := r.Intn(nc + 2)
+				put := func(i int, v uint32) []byte {
+					if i == which {
+						v = hostile
+					}
+					return le32(v)
+				}
+				b := append([]byte("OpusTags"), put(0, uint32(len(vendor)))...)
+				b = append(b, vendor...)
+				b = append(b, put(1, uint32(nc))...)
+				for k := 0; k < nc; k++ {
+					c := fmt.Sprintf("K%d=%s", k, strings.Repeat("v", r.Range(0, 5)))
+					b = append(b, put(2+k, uint32(len(c)))...)
+					b = append(b, c...)
+				}
+				d, mut = b, "hostile-length-field"
+			}
+			if (reader == "opushead" || reader == "opustags") && mut != "hostile-length-field" && r.Chance(1, 4) {
 				// every prefix length matters for the fixed-offset field reads
 				v := c37Valid(r, reader)
 				d, mut = append(v[:r.Intn(len(v)+1)], r.Bytes(r.Intn(3))...), "prefix+random"
